@@ -68,6 +68,12 @@ Fixpoint lex_lt (a b : bytes) : bool :=
   end.
 Definition lex_le (a b : bytes) : bool := negb (lex_lt b a).
 
+(* str::strip_prefix / strip_suffix *)
+Definition strip_prefix (p s : bytes) : option bytes :=
+  if is_prefix p s then Some (skipn (length p) s) else None.
+Definition strip_suffix (x s : bytes) : option bytes :=
+  match strip_prefix (rev x) (rev s) with Some r => Some (rev r) | None => None end.
+
 (* split(c): never empty *)
 Fixpoint split_on (c : N) (s : bytes) : list bytes :=
   match s with
